@@ -450,7 +450,7 @@ def _check_dispatch(fn: ast.FunctionDef) -> bool:
     import copy as _copy
     f = _copy.deepcopy(fn)
     f.body = [st for st in body_no_doc(f) if not norm.is_logging(st)] or [ast.Pass()]
-    f = norm.swap_negated_ifs(norm.lower_returns(f))
+    f = norm.swap_negated_ifs(norm.lower_returns(norm.match_to_if(f)))
     b = [st for st in f.body if not isinstance(st, ast.Pass)]
     present = ("target_fit_range", "target_fit_range is not None")
     if len(b) == 1 and isinstance(b[0], ast.If) and ast.unparse(b[0].test) in present \
